@@ -128,7 +128,7 @@ class Kaseikyo56(protocol_base.IrProtocolBase):
     ):
         if oem1 == 3 and oem2 == 1:
             from . import JVC56
-            return JVC56.encod(
+            return JVC56.encode(
                 device,
                 sub_device,
                 function,
